@@ -227,6 +227,9 @@ func runC14Query(sc C14Sc, c *kit.Case) *kit.Violation {
 				reply(t)
 				return time.Hour
 			case sc.Fault == "cancel-at-delay" && di == sc.At && sc.Op == "query":
+				mu.Lock()
+				cancelled = true // every later wait of this sender is long too: it must see its context, not a zero timer racing it
+				mu.Unlock()
 				cancel()
 				return time.Hour
 			case sc.Fault == "close-at-delay" && di == sc.At:
